@@ -16,14 +16,14 @@ class C14:
     judge_module = 'Run.JudgeC14'
     rule = ('generated curves with non-constant x and y (all families of gen.curve + miss-ratio-like curves) x reductions (returned by the real '
             'simplifiers rdp / rdp_fixed / grdp, random index subsets containing both ends with compute_removed_points, the identity reduction) '
-            'x knee subsets (positions in the reduced curve for add_points_even, curve indices for add_points_even_knees) '
+            'x knee subsets incl. the empty one (positions in the reduced curve for add_points_even, curve indices for add_points_even_knees) '
             'x (tx, ty) drawn from the observed normalised widths / heights of the segments (tx = w/2 exactly and its nextafter neighbours, '
             'tx = w/(2k) so that ceil(w/(2 tx)) = k exactly, ty = h exactly and below) and from a grid x extremes in {False, True}; '
             'both functions alternate; non-trivial = at least one inserted point (an output index that is neither a mapped knee nor a requested extreme); '
             'distinct by (function, points, reduction, knees, tx, ty, extremes)')
     assumptions = ['indices < 2^53, so int((right-left)/number_points) (float division, truncation) is integer division — the model uses integer division',
-                   'add_points_even_knees with an EMPTY knee array raises IndexError at knees[0] (the gap to the first knee is undefined); such cases are '
-                   'generated and classed outside the domain (agree code 6, counted in outside_domain)',
+                   'the empty knee set is in the domain of both functions (add_points_even_knees then has the gaps (0, n-1) and (n-1, n-1), commit 1b3ec6b); '
+                   'about 6 % of the generated cases of either function have no knee (histogram knees = 0)',
                    'curves with constant x or y raise ZeroDivisionError (outside the property\'s domain "non-constant x and y"); counted in outside_domain']
     trusted = ['modelled: postprocessing.add_points_even, add_points_even_knees, filter_worst_knees (local running-minimum definition), rdp.mapping (C07 model)',
                'ndarray.max/min over the curve modelled by NpList.np_max / np_min; math.ceil by Num.ceilZ; np.unique by NpList.np_unique']
@@ -129,7 +129,10 @@ class C14:
             red = c['red']
             m = len(red)
             if 'knees' not in c:
-                c['knees'] = sorted(r.sample(range(m), r.randint(0, m))) if r.random() < 0.8 else sorted(r.sample(range(1, m - 1), r.randint(0, m - 2))) if m > 2 else []
+                if r.random() < 0.06:
+                    c['knees'] = []
+                else:
+                    c['knees'] = sorted(r.sample(range(m), r.randint(0, m))) if r.random() < 0.8 else sorted(r.sample(range(1, m - 1), r.randint(0, m - 2))) if m > 2 else []
             if 'tx' not in c:
                 c['tx'], c['ty'] = self._thresholds(c, P, consecutive(red), r)
             st, out = call(pp.add_points_even, P, np.array(red, dtype=int), np.array(c['knees'], dtype=int),
@@ -137,7 +140,7 @@ class C14:
             mapped = [red[k] for k in c['knees'] if 0 <= k < m]
         else:
             if 'knees' not in c:
-                k = r.randint(1, n) if r.random() < 0.97 else 0
+                k = r.randint(1, n) if r.random() < 0.94 else 0
                 lo, hi = (0, n) if r.random() < 0.4 else (1, n - 1)
                 k = min(k, max(hi - lo, 0))
                 c['knees'] = sorted(r.sample(range(lo, hi), k))
@@ -181,8 +184,6 @@ class C14:
         base = {k: v for k, v in c.items() if k in keep}
         ks = c.get('knees', [])
         for j in range(len(ks)):
-            if c['kind'] == 'knees' and len(ks) <= 1:
-                break
             d = dict(base)
             d['knees'] = ks[:j] + ks[j + 1:]
             out.append(d)
